@@ -33,13 +33,13 @@ CHECKS = {
   text="Include graphs in a line language over the simulated file system, each named file present as distinct physical copies in none/one/several of cwd and the search directories, with faults on the resolution conversation (TOCTOU vanish/appear on exists, ENOENT/EACCES on open, non-UTF-8 copy). An executable reference model independent of the repository interprets the language and conducts its own exists/open/read conversation with a twin file system; operation logs, output tokens, returned define table and error value must all agree. Sampling over graphs; per graph every include edge is exercised.",
   note="Trusts: the reference model (about 250 lines, restricted to a line language whose semantics the statement fixes); Vfs semantics; hooks faithful. String literals appear only as rejected same-line neighbours; same-line neighbours are not generated under ignore_include.",
   tech="deterministic simulation: reference-model refinement check over a simulated file system with TOCTOU/open/read fault injection and an I/O-conversation monitor"),
-"C17": dict(cat="exploration", ref="§6 C17",
-  text="Seeded search over inputs x memo capacities (1..4096, unbounded, random) with the capacity knob owned by the simulator (instrumented fork of nom-packrat in the dependency seam); accept/reject and tree must equal the declared-capacity result. Divergences are shrunk and discriminated with a flag-aware memo key: the one listed known finding (key omits left-recursion flags) is reported as KNOWN-FINDING, anything that persists is a violation.",
-  note="Trusts: the nom-packrat fork is upstream code plus knobs; only whole-call FIFO capacities are explored; step budgets bound memo-starved parses (counted as budget_skipped); a divergence whose discriminator exhausts its budget is 'unattributed' and does not fail the check.",
-  tech="deterministic simulation: randomised tuning knob (memo capacity) with hit/miss/eviction probes, differential against the shipped configuration, flag-aware-key discriminator for the known finding"),
+"C17": dict(cat="exploration", ref="§6 C17 (\"C17 as built, final\")",
+  text="Seeded search over inputs x memo capacities (fixed 1..4096 and unbounded, four random, and in one run of six about 60 log-uniform capacities) with the capacity knob owned by the simulator (instrumented fork of nom-packrat in the dependency seam); accept/reject and tree must equal the declared-capacity result. Every diverging capacity is shrunk and discriminated on its own: with a flag-aware memo key at that capacity and on a ladder of capacities around it (first listed finding: key omits left-recursion flags), then - flag-aware key kept - with the keyword directives blanked out or the keyword set frozen (second listed finding: keyword-version stack outside the key). What the listed findings explain is reported as KNOWN-FINDING, anything else is a violation.",
+  note="Trusts: the nom-packrat fork is upstream code plus knobs; only whole-call FIFO capacities are explored; step budgets bound memo-starved parses (counted as budget_skipped); a divergence whose discriminator exhausts its budget is 'unattributed' and does not fail the check. Limit: the discriminators are interventions on the memo and change which entries are resident, so a residency-dependent defect in expression-heavy input can be attributed to the first known finding (seeded change C17-r6b; DESIGN.md section 13).",
+  tech="deterministic simulation: randomised tuning knob (memo capacity) with hit/miss/eviction probes, differential against the shipped configuration, intervention-based discriminators (flag-aware key on a capacity ladder, blanked keyword directives, frozen keyword set) for the two known findings"),
 "C19": dict(cat="exploration", ref="§6 C19",
-  text="Seeded search over interleavings of 2-4 simulated caller threads (real OS threads parked and released one at a time at every grammar terminal, parser-state mutation and file operation; random, PCT and mutation-biased policies); every call must return what it returns when its thread's program runs alone. Failing schedules are frozen to an explicit switch list and minimised. Half of the runs give every thread its own project with equal header names; 1/8 of the runs are a free-running supplement (threads released together, interleaving NOT decided, statistical replay) for changes that bring their own blocking synchronisation.",
-  note="Trusts: hooks faithful; every write to thread-local parser state is preceded by a yield point; the scheduler serialises execution, so data-race UB itself (as opposed to its logical effect) is not observable.",
+  text="Seeded search over interleavings of 2-4 simulated caller threads (real OS threads parked and released one at a time at every grammar terminal, parser-state mutation and file operation; random, PCT and mutation-biased policies); every call must return what it returns when its thread's program runs alone. Failing schedules are frozen to an explicit switch list and minimised. Half of the runs give every thread its own project with equal header names; further families: a crowd of 130 threads, 3-4 threads each deep in an include chain or deep in parentheses, macro chains on several threads; 1/8 of the runs are a free-running supplement (threads released together, interleaving NOT decided, statistical replay) for changes that bring their own blocking synchronisation.",
+  note="Trusts: hooks faithful; every write to thread-local parser state is preceded by a yield point; the scheduler serialises execution, so data-race UB itself (as opposed to its logical effect) is not observable. Limit: process-wide OS state outside the simulated file system (the real working directory) is not modelled (seeded change C19-r6a).",
   tech="deterministic simulation: seeded baton scheduler over real threads, recorded/replayable switch lists, solo-run reference"),
 "C20": dict(cat="exploration", ref="§6 C20",
   text="Seeded search over programs on the simulated file system x flag combinations; the file, string and two-step entry points of a group must return identical digests while the file side receives its bytes through short reads and EINTR and all calls meet the same missing/non-UTF-8 includes. Families: each call in its own pristine process; the whole group on one thread of one process before and after the files are rewritten; include chains of depth 60..68; byte-level variants of the top file (BOM, CRLF, no final newline).",
